@@ -205,6 +205,7 @@ func Explore(r *ev.Run, cfg Config) Result {
 		}
 		var next []*node
 		var nextMu sync.Mutex
+		overCap := false
 		var idx int64 = -1
 		var wg sync.WaitGroup
 		for w := 0; w < workers; w++ {
@@ -217,6 +218,12 @@ func Explore(r *ev.Run, cfg Config) Result {
 						return
 					}
 					if i%64 == 0 && r.Expired() {
+						return
+					}
+					nextMu.Lock()
+					stop := overCap
+					nextMu.Unlock()
+					if stop {
 						return
 					}
 					n := frontier[i]
@@ -275,7 +282,11 @@ func Explore(r *ev.Run, cfg Config) Result {
 						if !dup {
 							nn := &node{parent: n, op: op, depth: n.depth + 1, key: key}
 							nextMu.Lock()
-							next = append(next, nn)
+							if res.States+len(next) < cfg.MaxStates {
+								next = append(next, nn)
+							} else {
+								overCap = true
+							}
 							nextMu.Unlock()
 						}
 					}
@@ -283,6 +294,10 @@ func Explore(r *ev.Run, cfg Config) Result {
 			}(slots[w])
 		}
 		wg.Wait()
+		if overCap {
+			res.Exhaustive = false
+			r.MarkCapped()
+		}
 		res.States += len(next)
 		if cfg.OnState != nil {
 			for _, n := range next {
